@@ -1,5 +1,5 @@
 """C05 — wait timeouts fire in [T, T+2 s], never early, never after a grant."""
-from props import engine_common, ms_common
+from props import engine_common, engine2_common, ms_common
 from props.c01 import FINISH
 
 THEOREMS = ["Slock.C05.reachable_WInv", "Slock.C05.C05_deadline", "Slock.C05.C05_not_early", "Slock.C05.C05_zero", "Slock.C05.C05_zero_effect",
@@ -14,6 +14,8 @@ def run(ctx):
     ctx.audit("Slock.Properties.C05", THEOREMS)
     if ctx.tier == "thorough":
         ctx.leanchecker("Slock.Properties.C05")
+    # wheel invariant / deadline / scheduled ahead / not late / zero timeout carried down to the record-level model (stage 2)
+    engine2_common.audit_transfer2(ctx, engine2_common.THEOREMS_SIMT2_C05)
     engine_common.run_engine(ctx, ["C05:"], n_quick=3000, n_thorough=60000)
     ms_common.run_ms(ctx, 'wait')
     ctx.assumptions.append("server time = the virtual clock; one sweep per elapsed second (what updateCurrentTime/checkTimeOut do)")
